@@ -1,6 +1,6 @@
 (* Shared decoding of store histories and observation vectors (C01 C02 C03 C10 C14).
    A request is a list of operations; see harness/src/storegen.rs for the encoding:
-     (0 id len) AddRes   (1 id) AddSet   (2 dbuild) InsData   (3 id|-1 target|-1 (dbuild...)) Annotate
+     (0 id len) AddRes   (1 id) AddSet   (2 dbuild) InsData   (3 id|-1 target|-1 (dbuild...)) Annotate   (9 set keyid) AddKey
      (4 ref) RmAnn  (5 dref xref strict) RmData  (6 dref kref strict) RmKey  (7 ref) RmRes  (8 ref) RmSet
      ref = (0 tok) | (1 handle);  dbuild = (setref id|-1 key|-1 value)
      value = (0) | (1 b) | (2 z) | (3 z) | (4 cp...) | (5 value...)
@@ -83,6 +83,7 @@ Definition op_of_sx (x : sx) : op :=
   | 5%Z => RmData (ref_of_sx (n 1)) (ref_of_sx (n 2)) (sx_bool (n 3))
   | 6%Z => RmKey (ref_of_sx (n 1)) (ref_of_sx (n 2)) (sx_bool (n 3))
   | 7%Z => RmRes (ref_of_sx (n 1))
+  | 9%Z => AddKey (ref_of_sx (n 1)) (sx_nat (n 2))
   | _ => RmSet (ref_of_sx (n 1))
   end.
 
